@@ -8,6 +8,7 @@ pub mod c18;
 pub mod c28;
 pub mod c30;
 pub mod c31;
+pub mod c32;
 pub mod c33;
 pub mod c40;
 
@@ -97,6 +98,7 @@ pub fn make(id: &str) -> Option<Box<dyn Check>> {
         "C28" => Some(Box::new(c28::C28::new())),
         "C30" => Some(Box::new(c30::C30::new())),
         "C31" => Some(Box::new(c31::C31::new())),
+        "C32" => Some(Box::new(c32::C32::new())),
         "C33" => Some(Box::new(c33::C33::new())),
         "C40" => Some(Box::new(c40::C40::new())),
         _ => None,
